@@ -236,6 +236,17 @@ def run_case(desc):
     try:
         versions = [h.app_models('app1', 0), h.app_models('app1', 1)]
         proj.write_app('app1', versions, [('e1', texts, {})], nv=[0, 1])
+        kw0, kw1 = {}, {}
+        with_mig = desc['i'] % 5 == 4
+        if with_mig:
+            # next to app1: an app managed by migrations with one migration
+            # applied and one pending (work to do that needs no simulation)
+            stats['with_migration_app'] = 1
+            proj.write_mig_app('app4', 2)
+            kw0 = {'app_versions': {'app4': 1},
+                   'migmods': {'app4': 'app4.migs_1'}}
+            kw1 = {'app_versions': {'app4': 2},
+                   'migmods': {'app4': 'app4.migs_2'}}
         if two:
             stats['two_apps'] = 1
             z0 = {'Z': {'fields': [['v', {'kind': 'Integer'}]], 'meta': {}}}
@@ -245,7 +256,7 @@ def run_case(desc):
             proj.write_app('app2', [z0, z1], [('e1', [
                 "AddField('Z', 'x1', models.IntegerField, null=True)"], {})],
                 nv=[0, 1])
-        ev = proj.run('evolve_api', version=0, db='db.sqlite3')
+        ev = proj.run('evolve_api', version=0, db='db.sqlite3', **kw0)
         if ev.get('driver_error') or not ev['outcome']['ok']:
             return {'key': key, 'nontrivial': False, 'items': [],
                     'stats': {'skipped_install_failed': 1}, 'case': None}
@@ -253,7 +264,7 @@ def run_case(desc):
         sha = proj.sha()
         ev_rows = proj.evolution_rows()
         n_versions = len(proj.version_rows())
-        ev = proj.run('evolve_cmd', version=1, db='db.sqlite3')
+        ev = proj.run('evolve_cmd', version=1, db='db.sqlite3', **kw1)
         if ev.get('driver_error'):
             return {'key': key, 'nontrivial': False, 'items': [],
                     'stats': stats, 'case': None,
@@ -264,6 +275,7 @@ def run_case(desc):
                    and 'django_migrations' not in e['sql']]
         ctx = {'perturbation': kind, 'why': why.split(':')[0],
                'two_apps': two, 'implicit_null': implicit_null,
+               'with_migration_app': with_mig,
                # the (perturbed) evolution holds a type-changing ChangeField
                # that makes a nullable column NOT NULL without saying null=
                'has_implicit_notnull_typechange': any(
@@ -281,7 +293,7 @@ def run_case(desc):
                 # evidence: where did the accepted run end?
                 from .. import dbsnap
                 after = ev.get('after') or {}
-                fr = proj.run('evolve_api', version=1, db='fresh.db')
+                fr = proj.run('evolve_api', version=1, db='fresh.db', **kw1)
                 same = not dbsnap.diff_schema(
                     dbsnap.strip_rows(proj.snapshot('db.sqlite3')),
                     dbsnap.strip_rows(proj.snapshot('fresh.db'))) \
